@@ -270,6 +270,12 @@ impl FileReader for IOFileReader {
                 .to_owned()
         };
 
+        // Only a regular file is a source file: a device may never end (`/dev/zero` is valid
+        // UTF-8 all the way), a pipe may never begin
+        if std::fs::metadata(&path).is_ok_and(|meta| !meta.is_file()) {
+            return Err(FileReaderError::IOErr("not a regular file".to_string()));
+        }
+
         // open file and read it
         let file = match std::fs::read_to_string(path.clone()) {
             Ok(file) => file,
